@@ -762,6 +762,12 @@ func (cc *Conn) processResponse(reqType message.Type, reqMessageID int32, w *res
 			}
 			w.Message().SetMessageID(cc.GetMessageID())
 		}
+		// an empty or reset reply answers the request as well: duplicates get it from the cache
+		if reqType == message.Confirmable || reqType == message.NonConfirmable {
+			if err := cc.addResponseToCache(reqMessageID, w.Message()); err != nil {
+				return fmt.Errorf("cannot cache response: %w", err)
+			}
+		}
 		return nil
 	case sendJustAcknowledgeMessage(reqType, w):
 		// send message to separate(confirm received) message, if response is not modified
